@@ -298,7 +298,7 @@ func Gen(tier string, emit func(Case)) {
 	decoConfs := []int{-1}
 	for i, d := range confDevs {
 		switch d.name {
-		case "comment_style=sharp", "comment_style=slash", "align_trailing_comment", "line_width=1", "trailing_comment_width=2", "always_next_line_else_if", "sort_declaration_property", "indent_case_labels":
+		case "comment_style=sharp", "comment_style=slash", "align_trailing_comment", "line_width=1", "trailing_comment_width=2", "always_next_line_else_if", "sort_declaration_property", "indent_case_labels", "return_statement_parenthesis=false":
 			decoConfs = append(decoConfs, i)
 		}
 	}
